@@ -110,7 +110,7 @@ func H_decl() {
 			}
 		}
 		var rec interface{}
-		kind := vChoice("kind", 3)
+		kind := (i + len(pattern)) % 3 // which public entry point declares it
 		func() {
 			defer func() { rec = recover() }()
 			if isOpt {
